@@ -278,7 +278,15 @@ def r12_2(ctx, rep, BO, UO):
         "the printed symbol is looked up from the function's __name__")
     ev = lo.methods["eval"]
     rets = [n for n in walk_local(ev.node) if isinstance(n, ast.Return)]
-    ok = len(rets) == 1 and unparse(rets[0].value) == f"self.op(*[arg.eval({ev.params[1]}, {ev.params[2]}) for arg in self.args])"
+    from . import shared as _sh
+    ok = False
+    if len(rets) == 1 and isinstance(rets[0].value, ast.Call) and unparse(rets[0].value.func) == "self.op" and len(rets[0].value.args) == 1 \
+            and isinstance(rets[0].value.args[0], ast.Starred) and not rets[0].value.keywords:
+        arg0 = rets[0].value.args[0].value
+        if isinstance(arg0, ast.Name):
+            ds_ = [s_ for s_ in walk_local(ev.node) if isinstance(s_, ast.Assign) and len(s_.targets) == 1 and unparse(s_.targets[0]) == arg0.id]
+            arg0 = ds_[0].value if len(ds_) == 1 else arg0
+        ok = _sh.comp_signature(arg0) == ("list", f"$0.eval({ev.params[1]}, {ev.params[2]})", "self.args")
     obl(rep, ev, rets[0] if rets else ev.node, "R12.2", ok, "LazyOperator.eval applies the function to its operands in order", "",
         f"LazyOperator.eval returns `{unparse(rets[0].value) if rets else None}`")
     st = [s for s in walk_local(init.node) if isinstance(s, ast.Assign) and is_self_attr(s.targets[0], "args")]
@@ -362,8 +370,10 @@ def r12_3(ctx, rep):
     ev = prog.fn("terms.call_resolver.LazyCall.eval")
     dm, env = ev.params[1], ev.params[2]
     defs = {unparse(s.targets[0]): unparse(s.value) for s in walk_local(ev.node) if isinstance(s, ast.Assign)}
-    ok = defs.get("args") == f"[arg.eval({dm}, {env}) for arg in self.args]" and \
-        defs.get("kwargs") == f"{{name: arg.eval({dm}, {env}) for name, arg in self.kwargs.items()}}"
+    dnodes = {unparse(s.targets[0]): s.value for s in walk_local(ev.node) if isinstance(s, ast.Assign)}
+    from . import shared as _sh
+    ok = "args" in dnodes and "kwargs" in dnodes and _sh.comp_signature(dnodes["args"]) == ("list", f"$0.eval({dm}, {env})", "self.args") and \
+        _sh.comp_signature(dnodes["kwargs"]) == ("dict", f"$0: $1.eval({dm}, {env})", "self.kwargs.items()")
     obl(rep, ev, ev.node, "R12.3", ok, "every argument is evaluated in the same data mask and environment, order and names preserved", "",
         f"args = {defs.get('args')}; kwargs = {defs.get('kwargs')}")
     rets = [n for n in walk_local(ev.node) if isinstance(n, ast.Return)]
